@@ -1,15 +1,30 @@
-// Package vrand replaces "crypto/rand" in rewritten files: the scenario decides the bytes.
+// Package vrand replaces "crypto/rand" in rewritten files: a deterministic byte sequence that
+// starts again in every execution.
 package vrand
 
-import "io"
+import (
+	"io"
 
-// Next is the byte handed out by Read (scenario controlled; default 0).
+	"github.com/bluenviron/gomavlib/v3/pkg/vmc"
+)
+
+// Next is the first byte handed out in an execution (scenario controlled; default 0); the
+// following bytes count upwards, so that code drawing until it finds an unused value terminates.
 var Next byte
+
+var (
+	cur *vmc.Sched
+	n   byte
+)
 
 // Read fills b deterministically.
 func Read(b []byte) (int, error) {
+	if vmc.S != cur {
+		cur, n = vmc.S, 0
+	}
 	for i := range b {
-		b[i] = Next
+		b[i] = Next + n
+		n++
 	}
 	return len(b), nil
 }
